@@ -813,6 +813,7 @@ def _adapt_for(fd: ast.FunctionDef, home: ast.Module, target: ast.Module, alias:
     (home-module definitions are qualified with `alias`; without a module alias they are imported by name), or None."""
     import builtins
     needed: T.List[str] = []
+    inject: T.List[str] = []
     home_names, target_names = _module_level_names(home), _module_level_names(target)
     local = _stored_names(fd)
     new = copy.deepcopy(fd)
@@ -834,7 +835,11 @@ def _adapt_for(fd: ast.FunctionDef, home: ast.Module, target: ast.Module, alias:
                     return node
                 return ast.copy_location(ast.Attribute(value=ast.Name(id=alias, ctx=ast.Load()), attr=node.id, ctx=ast.Load()), node)
             if kind is not None and kind.startswith("import:"):
-                if target_names.get(node.id) != kind:
+                have = target_names.get(node.id)
+                if have is None:
+                    if kind not in inject:
+                        inject.append(kind)          # the same import is added to the target module
+                elif have != kind:
                     ok = False
                 return node
             ok = False
@@ -842,6 +847,8 @@ def _adapt_for(fd: ast.FunctionDef, home: ast.Module, target: ast.Module, alias:
     new.body = [Q().visit(b) for b in new.body]
     if not ok:
         return None
+    for kind in inject:
+        target.body.insert(0, ast.fix_missing_locations(ast.parse(kind[len("import:"):]).body[0]))
     for name in needed:
         if target_names.get(name) is None:
             imp = ast.ImportFrom(module=home_name, names=[ast.alias(name=name)], level=1)
@@ -884,9 +891,17 @@ def normalise_program(trees: T.Dict[str, ast.Module]) -> T.Dict[str, int]:
             for n, tree in trees.items():
                 if n == m:
                     continue
+                mods, names = _module_aliases(tree)
+                imported_here = any(t == (m, name) for t in names.values())
                 for x in ast.walk(tree):
-                    if (isinstance(x, ast.Attribute) and x.attr == name) or (isinstance(x, ast.Name) and x.id == name) or \
-                            (isinstance(x, ast.alias) and x.name == name) or (isinstance(x, ast.Constant) and x.value == name):
+                    if isinstance(x, ast.Attribute) and x.attr == name:
+                        # `other_module.name` is a different function; `m_alias.name` or an unknown receiver counts
+                        if isinstance(x.value, ast.Name) and x.value.id in mods and mods[x.value.id] != m:
+                            continue
+                        k += 1
+                    elif isinstance(x, ast.Name) and x.id == name and imported_here:
+                        k += 1
+                    elif isinstance(x, ast.Constant) and x.value == name:
                         k += 1
             return k
         return count
